@@ -499,6 +499,93 @@ let sw_case (line : string) : string =
   | _ -> failwith ("bad sw case: " ^ line)
 
 
+(* ---------- worker pool (C16) ---------- *)
+(* case line: <id> <var> <nw> <run> <lprogs> <sprogs> <sched>
+     var     o = original code | f = repaired flusher
+     nw      number of workers (channel capacity 2*nw)
+     run     1 = the state after New + the first Run | 0 = never run
+     lprogs  - | lifecycle clients separated by '|', each a string over T (Stop) and R (Run)
+     sprogs  - | sender clients separated by '|', each a comma-separated list of job numbers (or 'e' = no Send)
+     sched   - | controller steps separated by '.', each <L|S|F|W><index>[!]  ('!' = the done branch of a select in
+             which both branches are ready; lower-case letter = the controller expects the thread to block)
+   output: <id> <ev>* ; end=<quiet|open|panic> log=<executions in order|-> acc=<jobs|-> chan=<jobs|-> def=<jobs|->
+           flock=<0|1> live=<0|1> stranded=<0|1> panic=<kind|none> *)
+let pl_ints (s : string) : nat list =
+  if s = "e" || s = "-" then [] else List.map (fun x -> nat_of_int (int_of_string x)) (String.split_on_char ',' s)
+let pl_sprogs (s : string) : nat list list =
+  if s = "-" then [] else List.map pl_ints (String.split_on_char '|' s)
+let pl_lprogs (s : string) : pl_lop list list =
+  if s = "-" then [] else
+    List.map (fun c -> if c = "e" then [] else
+      List.init (String.length c) (fun i -> match c.[i] with 'T' -> PlStop | 'R' -> PlRun | _ -> failwith "bad lifecycle op"))
+      (String.split_on_char '|' s)
+let pl_lab_of (tok : string) : pl_tid * bool =
+  let alt = String.length tok > 0 && tok.[String.length tok - 1] = '!' in
+  let body = if alt then String.sub tok 0 (String.length tok - 1) else tok in
+  let idx = nat_of_int (int_of_string (String.sub body 1 (String.length body - 1))) in
+  ((match body.[0] with
+    | 'L' | 'l' -> PtL idx | 'S' | 's' -> PtS idx | 'F' | 'f' -> PtF idx | 'W' | 'w' -> PtW idx
+    | _ -> failwith ("bad pool thread " ^ tok)), alt)
+let pl_sched (s : string) : (pl_tid * bool) list =
+  if s = "-" then [] else List.map pl_lab_of (String.split_on_char '.' s)
+let pl_string_of_tid = function
+  | PtL i -> "L" ^ string_of_int (int_of_nat i) | PtS i -> "S" ^ string_of_int (int_of_nat i)
+  | PtF i -> "F" ^ string_of_int (int_of_nat i) | PtW i -> "W" ^ string_of_int (int_of_nat i)
+let pl_string_of_lab ((t, alt) : pl_tid * bool) : string = pl_string_of_tid t ^ (if alt then "!" else "")
+let pl_string_of_point = function
+  | PpSendEnter -> "wpool.send.enter" | PpSendBeforeSelect -> "wpool.send.beforeSelect"
+  | PpLazyEnter -> "wpool.lazy.enter" | PpLazyFail -> "wpool.lazy.afterTryLockFail"
+  | PpStopEnter -> "wpool.stop.enter" | PpStopNotRunning -> "wpool.stop.notRunning"
+  | PpStopAfterCancel -> "wpool.stop.afterCancel" | PpStopAfterSendWait -> "wpool.stop.afterSendWait"
+  | PpStopBeforeClose -> "wpool.stop.beforeClose" | PpRunEnter -> "wpool.run.enter"
+  | PpRunAfterTryLock -> "wpool.run.afterTryLock" | PpRunAfterCtx -> "wpool.run.afterCtx" | PpFlLoop -> "wpool.flusher.loop"
+  | PpFlAfterPop -> "wpool.flusher.afterPop" | PpFlAfterPopNil -> "wpool.flusher.afterPopNil"
+  | PpFlBeforeExit -> "wpool.flusher.beforeExit" | PpWkStart -> "wpool.worker.start"
+  | PpWkBegin -> "wpool.exec.begin" | PpWkEnd -> "wpool.exec.end"
+let pl_string_of_ev ((t, o) : pl_tid * pl_obs) : string =
+  match o with
+  | PoAt p -> pl_string_of_tid t ^ "@" ^ pl_string_of_point p
+  | PoBlocked -> pl_string_of_tid t ^ ":blocked"
+  | PoDone -> pl_string_of_tid t ^ ":done"
+  | PoNone -> pl_string_of_tid t ^ ":none"
+let pl_string_of_pk = function
+  | PkNilCtx -> "nil-ctx" | PkNilCancel -> "nil-cancel" | PkCloseClosed -> "close-closed" | PkCloseNil -> "close-nil"
+  | PkSendClosed -> "send-closed" | PkRecvClosed -> "recv-closed" | PkUnlock -> "unlock-unlocked"
+  | PkOutOfModel -> "out-of-model"
+let pl_jobs (l : nat list) : string =
+  if l = [] then "-" else String.concat "," (List.map (fun j -> string_of_int (int_of_nat j)) l)
+let pl_setup (var : string) (nw : string) (run : string) (lp : string) (sp : string) =
+  let p = pl_mkpar (match var with "o" -> false | "f" -> true | _ -> failwith ("bad pool variant " ^ var))
+            (nat_of_int (int_of_string nw)) in
+  (p, pl_init p (run = "1") (pl_lprogs lp) (pl_sprogs sp))
+let pool_case (line : string) : string =
+  match split_ws line with
+  | [id; var; nw; run; lp; sp; sc] ->
+    let (p, s0) = pl_setup var nw run lp sp in
+    let (evs, s) = pl_trace p (pl_sched sc) s0 [] in
+    let (log, (acc, (chan, (def, (flock, pk))))) = pl_outcome s in
+    let init = List.filter (fun (t, _) -> match t with PtL _ | PtS _ -> true | _ -> false) (pl_initial_obs s0) in
+    Printf.sprintf "%s %s ; end=%s log=%s acc=%s chan=%s def=%s flock=%d live=%d stranded=%d panic=%s" id
+      (String.concat " " (List.map pl_string_of_ev (init @ evs)))
+      (match pk with Some _ -> "panic" | None -> if pl_quiet p s then "quiet" else "open")
+      (pl_jobs log) (pl_jobs (List.sort compare acc)) (pl_jobs chan) (pl_jobs def)
+      (if flock then 1 else 0) (if pl_is_live s then 1 else 0) (if pl_stranded s then 1 else 0)
+      (match pk with Some k -> pl_string_of_pk k | None -> "none")
+  | _ -> failwith ("bad pool case: " ^ line)
+
+(* enumeration line: <id> <var> <nw> <run> <lprogs> <sprogs> <all|eager> <probes> <fuel>
+   prints one pool case line per complete controller schedule *)
+let pool_enum_case (line : string) : string =
+  match split_ws line with
+  | [id; var; nw; run; lp; sp; mode; probes; fuel] ->
+    let (p, s0) = pl_setup var nw run lp sp in
+    let l = pl_enum p (mode = "eager") (nat_of_int (int_of_string fuel)) (nat_of_int (int_of_string probes)) s0 [] in
+    String.concat "\n" (List.mapi (fun i sc ->
+      Printf.sprintf "%s.%d %s %s %s %s %s %s" id i var nw run lp sp
+        (if sc = [] then "-" else String.concat "." (List.map pl_string_of_lab sc))) l)
+  | _ -> failwith ("bad pool-enum case: " ^ line)
+
+
 
 let () =
   let cmd = Sys.argv.(1) in
@@ -535,6 +622,8 @@ let () =
     | "rw" -> rw_case
     | "rw-enum" -> rw_enum_case
     | "sw" -> sw_case
+    | "pool" -> pool_case
+    | "pool-enum" -> pool_enum_case
     | _ -> failwith ("unknown command " ^ cmd)
   in
   List.iter (fun l -> if String.trim l <> "" && l.[0] <> '#' then print_endline (f l)) lines
